@@ -17,7 +17,7 @@ if REPO not in sys.path:
 
 from pyvc.contract import REGISTRY, Contract   # noqa: E402
 from pyvc import smt as S                       # noqa: E402
-from contracts.macros import runtime_namespace, ceval  # noqa: E402
+from contracts.macros import runtime_namespace, ceval, view_args, TotalView  # noqa: E402
 
 UNIVERSE = ['a', 'b', 'c', 'd', 'e']
 
@@ -114,6 +114,16 @@ class Gen:
             return {self.value(ty[1], ctx) for _ in range(r.randint(0, 3))}
         if k == 'dict':
             return {self.value(ty[1], ctx): self.value(ty[2], ctx) for _ in range(r.randint(0, 3))}
+        if k == 'opt':
+            return None if r.random() < 0.3 else self.value(ty[1], ctx)
+        if k == 'pair':
+            return tuple(self.value(t, ctx) for t in ty[1:])
+        if k == 'tmap':
+            import collections
+            d = collections.defaultdict(set)
+            for _ in range(r.randint(0, 3)):
+                d[self.value(ty[1], ctx)] |= self.value(ty[2], ctx)
+            return d
         if k == 'obj' and ty[1] == 'SCFG':
             return self.scfg()
         if k == 'obj' and ty[1] == 'NameGenerator':
@@ -246,7 +256,34 @@ def gen_graph_and_pair(g: Gen, c: Contract):
     return {'self': scfg, 'begin': g.rng.choice(keys) if g.rng.random() < 0.9 else 'zz', 'end': g.rng.choice(keys + UNIVERSE)}
 
 
-GENERATORS = {'stream': gen_stream, 'flowinfo': gen_flowinfo, 'block_bcmap': gen_block_bcmap, 'namegen': gen_namegen, 'insert_ctrl': gen_insert_ctrl, 'tails_exits': gen_tails_exits, 'graph_and_pair': gen_graph_and_pair, 'graph_and_subset': gen_graph_and_subset, 'insert': gen_insert, 'branch_replace': gen_branch_replace}
+def gen_dom_tables(g: Gen, c: Contract):
+    """entries / nodes / predecessor and successor tables as _doms and _post_doms build them, sometimes perturbed"""
+    import collections
+    r = g.rng
+    scfg = g.scfg(with_be=0.1, ext=0.4)
+    preds, succs = collections.defaultdict(set), collections.defaultdict(set)
+    post = r.random() < 0.4
+    for src, node in scfg.graph.items():
+        for dst in node.jump_targets:
+            if dst in scfg.graph:
+                (preds[src] if post else preds[dst]).add(dst if post else src)
+                (succs[dst] if post else succs[src]).add(src if post else dst)
+    nodes = list(scfg.graph)
+    entries = {k for k in nodes if not preds[k]}
+    if r.random() < 0.25:
+        entries |= set(r.sample(nodes, r.randint(0, len(nodes))))     # extra entries (allowed by the contract)
+    if r.random() < 0.08 and nodes:
+        succs[r.choice(nodes)].discard(r.choice(nodes))              # breaks `converse` (case skipped)
+    if r.random() < 0.05:
+        entries = set()
+    return {'entries': entries, 'nodes': nodes, 'preds_table': preds, 'succs_table': succs}
+
+
+def gen_scfg_only(g: Gen, c: Contract):
+    return {'scfg': g.scfg(with_be=0.15, ext=0.4)}
+
+
+GENERATORS = {'scfg_only': gen_scfg_only, 'dom_tables': gen_dom_tables, 'stream': gen_stream, 'flowinfo': gen_flowinfo, 'block_bcmap': gen_block_bcmap, 'namegen': gen_namegen, 'insert_ctrl': gen_insert_ctrl, 'tails_exits': gen_tails_exits, 'graph_and_pair': gen_graph_and_pair, 'graph_and_subset': gen_graph_and_subset, 'insert': gen_insert, 'branch_replace': gen_branch_replace}
 
 
 def gen_args(g: Gen, c: Contract):
@@ -279,6 +316,8 @@ def describe(v):
         return [describe(x) for x in v]
     if isinstance(v, (set, frozenset)):
         return {'set': sorted(describe(x) for x in v)}
+    if type(v).__name__ == 'defaultdict':
+        return {'defaultdict_set': {str(k): sorted(x) for k, x in v.items() if x}}
     if isinstance(v, dict):
         return {str(k): describe(x) for k, x in v.items()}
     if isinstance(v, type):
@@ -318,6 +357,12 @@ def rebuild(d, g: Gen = None):
             else:
                 kw[k] = v
         return cls(**kw)
+    if isinstance(d, dict) and 'defaultdict_set' in d:
+        import collections
+        dd = collections.defaultdict(set)
+        for k, x in d['defaultdict_set'].items():
+            dd[k] = set(x)
+        return dd
     if isinstance(d, dict) and 'set' in d:
         return set(rebuild(x) for x in d['set'])
     if isinstance(d, dict) and 'type' in d:
@@ -335,9 +380,9 @@ class Outcome:
 def check_case(c: Contract, fn, args, ns=None, ignore_known=False):
     """Run the real function on args under the contract. Returns Outcome."""
     ns = ns or runtime_namespace()
-    pre = {k: snapshot(v) for k, v in args.items()}
+    pre = view_args(c, {k: snapshot(v) for k, v in args.items()})
     env = dict(ns)
-    env.update(args)
+    env.update(view_args(c, args))
     try:
         for cn, text in c.requires.items():
             if not ceval(text, env):
@@ -372,7 +417,7 @@ def check_case(c: Contract, fn, args, ns=None, ignore_known=False):
         return Outcome('fail', {'clause': 'noraise', 'exception': en, 'message': str(e)[:200],
                                 'frames': ['%s:%s:%d' % (os.path.basename(f.filename), f.name, f.lineno) for f in tb[-3:]]})
     env = dict(ns)
-    env.update(args)
+    env.update(view_args(c, args))
     env['old'] = types.SimpleNamespace(**pre)
     env['result'] = res
     for cn, text in list(c.ensures.items()) + list(c.runtime_ensures.items()):
@@ -392,6 +437,11 @@ def check_case(c: Contract, fn, args, ns=None, ignore_known=False):
                     return Outcome('fail', {'clause': 'frame[%s.graph]' % n})
             continue
         try:
+            if isinstance(pre[n], TotalView):
+                same = pre[n] == args[n]
+                if not same:
+                    return Outcome('fail', {'clause': 'frame[%s]' % n})
+                continue
             same = args[n] == pre[n] and (type(args[n]).__name__ != 'SCFG' or args[n].name_gen.kinds == pre[n].name_gen.kinds)
         except Exception:
             same = True
